@@ -33,6 +33,7 @@ def check(chk, thorough=False):
     chk.run('C12.o', 'R-GUARD', 'the security blocks of a reassembled bundle are those of the fragment with offset 0 (the only one that carries them), whatever the order of arrival (= C06.e)', lambda ob: __import__('sa.props.c06', fromlist=['c06e']).c06e(tree, ob), floor=5)
     chk.run('C12.p', 'R-FLOW', 'accepting (removing) one security block leaves every other block in the type index the verify steps search (= C11.d)', lambda ob: __import__('sa.props.c11', fromlist=['c11d']).c11d(tree, ob), floor=5)
     chk.run('C12.q', 'R-WHO', 'a result that names no key does not verify: the key identification of one result never becomes a default for the next (the shared additional headers are read-only) (= C03.p)', lambda ob: __import__('sa.props.c03', fromlist=['addl_headers_read_only']).addl_headers_read_only(tree, ob), floor=4)
+    chk.run('C12.r', 'R-SCHEMA', 'what a security result is verified over is what arrived: fields, endpoint IDs (the security source) and blocks decode only from the item in the form the encoder gives back, so no other spelling re-encodes to the signed octets (= C08.e)', lambda ob: __import__('sa.props.c08', fromlist=['c08e']).c08e(tree, ob), floor=30)
     chk.run('C12.f', 'R-TYPE', 'the recorded deletion reason is a reason code (integer) on every path', lambda ob: c12f(tree, ob), floor=2)
 
 
